@@ -22,6 +22,9 @@ RULE = ('per element-content type, all in one process on purpose: interleavings 
         'container graphs of the instances must be pairwise disjoint and disjoint from the shared template; the template '
         'fingerprint (shape, bounds, no attached elements, no flags) and the behaviour fingerprint of a fresh instance '
         '(status of every word <=2, verdicts, attribute probes) must equal those taken in a forked child before any work. '
+        'For every element class: what a fresh element answers to seven refused calls (undeclared keyword / dot write / dot '
+        'read / shortcut, wrong-kind value, serialisation while incomplete) - exception class and message - after a workload '
+        'of refused calls, replacements and serialisations must equal the answers of a pristine interpreter (subprocess). '
         'non-trivial = an interleaving in which at least two instances were operated on; distinct = distinct interleaving')
 ASSUMPTIONS = ['the pristine fingerprint is recomputed from the current tree on every run (never stored)',
                'XSD descriptor objects shared on purpose (XSDTree nodes) are allowed to be shared; the mutable matcher nodes '
@@ -32,8 +35,12 @@ TIMEOUT = {'quick': 900, 'thorough': 5400}
 ORDERS = ['sorted', 'reversed', 'shuffle-a', 'shuffle-b']
 
 
+NMSG = 4
+
+
 def plan(tier, seed):
     out = [{'mode': 'order', 'order': o, 'cost': 4000} for o in ORDERS]
+    out += [{'mode': 'messages', 'slice': i, 'cost': 1500} for i in range(NMSG)]
     for t in sorted(ref.DFAS):
         a = len(ref.DFAS[t].alphabet)
         out.append({'type': t, 'cost': (a * a + 50) * a})
@@ -230,9 +237,81 @@ def aggregate(results, tier, seed):
     return agg
 
 
+def message_fingerprint(lib, names):
+    """what a FRESH element of each class answers to refused calls, messages included (addresses masked): undeclared
+    constructor keyword, serialisation while required parts are missing, undeclared dot write / read, a value of a wrong kind"""
+    import re
+    out = {}
+
+    def norm(r):
+        if r[0] == 'ok':
+            return 'ok'
+        return '%s: %s' % (type(r[1]).__name__, re.sub(r'0x[0-9a-fA-F]+', '0x', str(r[1]))[:600])
+    for cn in names:
+        cls = lib.CLASSES[cn]
+        dv = lib.default_value(cls)
+        mk = (lambda **kw: cls(dv, **kw)) if dv is not None else (lambda **kw: cls(**kw))
+        row = [norm(lib.call(mk, bogus_attribute_=1))]
+        e = lib.call(mk)
+        if e[0] == 'ok':
+            e = e[1]
+            row.append(norm(lib.call(e.to_string)))
+            row.append(norm(lib.call(setattr, e, 'bogus_attribute_', 1)))
+            row.append(norm(lib.call(getattr, e, 'bogus_attribute_')))
+            row.append(norm(lib.call(setattr, e, 'xml_bogus_child_', None)))
+            row.append(norm(lib.call(setattr, e, 'value_', ('wrong', 'kind'))))
+            row.append(norm(lib.call(e.to_string)))
+        out[cn] = row
+    return out
+
+
+def run_messages(shard, tier, seed):
+    """the answers of fresh elements to refused calls - exception class AND message - in this process, after a workload of
+    refused calls, replacements and serialisations on other instances, against the answers in a pristine interpreter"""
+    import subprocess
+    import sys
+    from .. import lib, hist
+    names = [cn for i, cn in enumerate(sorted(lib.CLASSES)) if i % NMSG == shard['slice']]
+    code = ('import sys, json\nsys.path[:0] = %r\nfrom mxverif import lib\nfrom mxverif.checks import c13\n'
+            'json.dump(c13.message_fingerprint(lib, %r), sys.stdout)\n') % (
+                [os.path.dirname(os.path.dirname(os.path.dirname(os.path.abspath(__file__)))), lib.REPO], names)
+    p = subprocess.run([sys.executable, '-c', code], capture_output=True, text=True, timeout=600, env=dict(os.environ))
+    try:
+        pristine = json.loads(p.stdout)
+    except ValueError:
+        return {'evaluations': 0, 'distinct_nontrivial': 0, 'violations': [], 'samples': [],
+                'counters': {'pristine_interpreter_failed': 1}}
+    # workload: the refused calls themselves (on other instances), in reverse class order, plus histories with replacements
+    rnd = random.Random('%s:C13:messages:%d' % (seed, shard['slice']))
+    message_fingerprint(lib, list(reversed(names)))
+    nops = 0
+    for t in rnd.sample(sorted(ref.DFAS), 12 if tier == 'quick' else 60):
+        for _ in range(3):
+            h = genhist.random_history(rnd, t, 8, rnd.choice(['mixed', 'failure', 'shortcut']))
+            r = hist.replay(lib.TYPES[t], t, h)
+            nops += len(r.status)
+    now = message_fingerprint(lib, names)
+    viol = []
+    for cn in names:
+        if now[cn] != pristine.get(cn):
+            idx = [i for i, (a, b) in enumerate(zip(now[cn], pristine.get(cn, []))) if a != b]
+            probe = ['undeclared-keyword', 'to_string', 'undeclared-dot-write', 'undeclared-dot-read', 'undeclared-shortcut',
+                     'wrong-kind-value', 'to_string-again'][idx[0]] if idx else 'row'
+            a, b = (now[cn][idx[0]], pristine[cn][idx[0]]) if idx else ('', '')
+            what = 'exception-class' if a.split(':')[0] != b.split(':')[0] else 'message'
+            viol.append({'sig': {'kind': 'fresh-element-answers-differently-than-in-a-pristine-interpreter', 'probe': probe,
+                                 'what': what},
+                         'case': {'cls': cn, 'slice': shard['slice']}, 'detail': {'here': a[:300], 'pristine': b[:300]}})
+    return {'evaluations': len(names) * 7, 'distinct_nontrivial': len(names) * 7, 'violations': viol,
+            'samples': [{'class': names[0], 'answers': now[names[0]][:3]}],
+            'counters': {'message_rows_compared': len(names), 'workload_operations': nops}}
+
+
 def run_shard(shard, tier, seed):
     if shard.get('mode') == 'order':
         return run_order(shard, tier, seed)
+    if shard.get('mode') == 'messages':
+        return run_messages(shard, tier, seed)
     from .. import lib, hist
     from musicxml.xmlelement.containers import containers
     t = shard['type']
@@ -450,6 +529,10 @@ def _apply(e, live, op, lib):
 
 
 def replay_case(rp):
+    if 'slice' in rp['case']:
+        res = run_messages({'slice': rp['case']['slice']}, 'quick', rp.get('seed', 0))
+        mine = [x for x in res['violations'] if x['case']['cls'] == rp['case']['cls']]
+        return {'violated': bool(mine), 'violations': [m['detail'] for m in mine[:2]]}
     if 'orders' in rp['case']:
         rs = [run_order({'order': o}, 'quick', rp.get('seed', 0)) for o in rp['case']['orders']]
         agg = aggregate(rs, 'quick', 0)
